@@ -48,3 +48,22 @@ Proof.
   split; [|split; reflexivity].
   constructor; [repeat constructor; intros []|repeat constructor].
 Qed.
+
+(* a nil section whose field is omitempty (the OTLP receiver's protocols since fix 12e040cda) is not
+   written into the effective configuration at all *)
+Lemma nil_section_absent_l o fs k :
+  NoDup (map fst fs) -> In (k, ONil true) fs -> cv_get [k] (Some (encode_o (ORec o fs))) = None.
+Proof.
+  intros Hnd Hin. rewrite encode_o_rec. cbn [cv_get cv_lookup].
+  now rewrite (lookup_enc_o k (ONil true) fs Hnd Hin).
+Qed.
+
+(* ... and an unset key makes the receiver's own rule keep the section nil: the typed configuration
+   comes back from its effective configuration (the former witness of the nil-section defect) *)
+Lemma nil_section_round_trip_l :
+  let d := ORec false [("protocols"%string, ORec false [("grpc"%string, ORec false [("endpoint"%string, OSc false false "localhost:4317"%string)]);
+                                                  ("http"%string, ORec false [("endpoint"%string, OSc false false "localhost:4318"%string)])])] in
+  let v := ORec false [("protocols"%string, ORec false [("grpc"%string, ORec false [("endpoint"%string, OSc false false "a:1"%string)]);
+                                                  ("http"%string, ONil true)])] in
+  decode_model "receivers/otlp" (o_strip d) (encode_o v) = o_strip v.
+Proof. vm_compute. reflexivity. Qed.
